@@ -325,6 +325,12 @@ int main() {
             o1 << s;
             o2 << std::hex << std::showbase << std::showpos << std::uppercase << s;
             os << ' ' << hexstr(o1.str()) << ' ' << hexstr(o2.str());
+            // a one-shot field width (left and right aligned, with a fill character), octal numerals; the public name table
+            std::ostringstream o3, o4, o5;
+            o3 << std::left << std::setfill('.') << std::setw(5) << s;
+            o4 << std::right << std::setfill('*') << std::setw(6) << s;
+            o5 << std::oct << std::showpos << s;
+            os << ' ' << hexstr(o3.str()) << ' ' << hexstr(o4.str()) << ' ' << hexstr(o5.str()) << ' ' << hexstr(square_strings[q]);
         } else if (cmd == "between") {
             int a, b;
             in >> a >> b;
@@ -342,6 +348,16 @@ int main() {
                << static_cast<int>(m.promotion()) << ' ' << m.is_capturing() << ' ' << m.is_promoting() << ' '
                << (pr >= 1 && pr <= 4 || pr == 6 ? hexstr(static_cast<std::string>(m)) : std::string("skip")) << ' '
                << (m == m2) << ' ' << (m != m2) << ' ' << static_cast<bool>(m);
+            if (pr >= 1 && pr <= 4 || pr == 6) {
+                std::ostringstream a1, a2, a3, a4;
+                a1 << m;
+                a2 << std::hex << std::showbase << std::showpos << std::uppercase << m;
+                a3 << std::left << std::setfill('.') << std::setw(8) << m;
+                a4 << std::oct << std::right << std::setfill('*') << std::setw(9) << m;
+                os << ' ' << hexstr(a1.str()) << ' ' << hexstr(a2.str()) << ' ' << hexstr(a3.str()) << ' ' << hexstr(a4.str());
+            } else {
+                os << " skip skip skip skip";
+            }
         } else if (cmd == "magic") {
             int sq;
             std::string oh;
